@@ -55,6 +55,8 @@ type vxJob struct {
 	MaxSignals int        `json:"maxSignals"` // how many signals the explorer may deliver in addition to the final one
 	Faults     []vxFault  `json:"faults"`
 	Cycles     int        `json:"cycles"` // control cycles before the final SIGTERM
+	InstantsMs []int      `json:"instantsMs,omitempty"` // idle instants for signal choice points (default: start-up wait, first-second delay, between ticks)
+	FinalAtMs  int        `json:"finalAtMs,omitempty"`  // time of the final SIGTERM (default: after Cycles control cycles)
 }
 
 func (j vxJob) Describe() string {
@@ -342,6 +344,12 @@ func TestVX_daemonChild(t *testing.T) {
 		// idle-instant signal choice points and the final SIGTERM
 		go func() {
 			instants := []time.Duration{500 * time.Millisecond, 2900 * time.Millisecond, firstCycle + vxTick/2, firstCycle + 3*vxTick/2, firstCycle + 5*vxTick/2}
+			if len(job.InstantsMs) > 0 {
+				instants = nil
+				for _, ms := range job.InstantsMs {
+					instants = append(instants, time.Duration(ms)*time.Millisecond)
+				}
+			}
 			last := time.Duration(0)
 			if job.MaxSignals > 0 {
 				for _, at := range instants {
@@ -359,6 +367,9 @@ func TestVX_daemonChild(t *testing.T) {
 				}
 			}
 			end := firstCycle + time.Duration(job.Cycles)*vxTick - vxTick/2 + 77*time.Microsecond
+			if job.FinalAtMs > 0 {
+				end = time.Duration(job.FinalAtMs)*time.Millisecond + 77*time.Microsecond
+			}
 			if end > last {
 				time.Sleep(end - last)
 			}
@@ -373,8 +384,15 @@ func TestVX_daemonChild(t *testing.T) {
 				vxAppend(events, fmt.Sprintf("%s regulating %s pwm=%d", stamp(), job.Fans[i].ID, v))
 			}
 			deliver(syscall.SIGTERM, "final")
-			// if the daemon ignores it, give up after a virtual minute
-			time.Sleep(time.Minute)
+			// if the daemon ignores it, give up after a virtual minute (an initialisation sequence in progress is
+			// finished first, which takes up to about 9 virtual minutes: allow 15)
+			giveUp := time.Minute
+			for _, f := range job.Fans {
+				if !f.Stored {
+					giveUp = 15 * time.Minute
+				}
+			}
+			time.Sleep(giveUp)
 			vxAppend(events, stamp()+" daemon still running one minute after the final SIGTERM")
 			os.Exit(99)
 		}()
